@@ -13,7 +13,7 @@ def compare_record(d, msg, elems, key, rp, what=''):
         if e.kind == 'num':
             require(isinstance(got, (int, SInt)) and not isinstance(got, bool) and s_eq(got, e.expect), what + '%s changed' % e.key, key=key, replay=rp)
         elif e.kind == 'date':
-            require(got is e.expect, what + '%s changed' % e.key, key=key, replay=rp)
+            require(models.dates_equal(got, e.expect), what + '%s changed' % e.key, key=key, replay=rp)
         else:
             req_eq(got, e.expect, what + '%s changed' % e.key, key=key, replay=rp)
         for k, v in e.pds.items():
